@@ -183,7 +183,8 @@ func toTree(drafty *document) (*node, error) {
 		if err := s.styleToSpan(&drafty.Fmt[i]); err != nil {
 			return nil, err
 		}
-		if s.at < -1 || s.end > textLen {
+		if s.at < -1 || s.end > textLen || s.end < s.at {
+			// Out of range, or at+len has overflown.
 			return nil, errInvalidContent
 		}
 
